@@ -37,7 +37,13 @@ var verRE = regexp.MustCompile(`^[0-9]+\.[0-9]+$`)
 
 func genCmd(c *ev.Case) (string, string) {
 	r := c.Rand
-	switch r.Intn(17) {
+	switch r.Intn(18) {
+	case 16:
+		// a complete current-format object followed by something else: as a whole the text is not a current-format
+		// message (it is a legacy line if it holds the tokens of one, and nothing otherwise)
+		obj := fmt.Sprintf(`{"username":"j%s","hostname":"jh","sshClientVersion":"9.%d","ifVer":7}`, gen.Ident(r, 3), r.Intn(10))
+		tail := []string{" IFVer=6 SSHClientVersion=8.1 req=lu@lh", " req=" + gen.Ident(r, 3) + "@lh SSHClientVersion=7.2", "}", " x", obj, " " + obj, "\x00\xff", " null", ",", "\n{}"}[r.Intn(10)]
+		return obj + tail, "json-then-more"
 	case 15:
 		// the client offers a transaction id of its own, wherever a client can put one: ids come from the server
 		id := []string{"0123456789", "deadbeef00", "ffffffffff", "aaaaaaaaaa"}[r.Intn(4)]
